@@ -225,6 +225,7 @@ fn build_tree(seed: u64, case: u64, dir: &Path) -> Result<TreeSpec, String> {
         obs_seed: 1,
         scan_cases: 0,
         fifo: false,
+        fifo_desc: false,
         known: Arc::new(BTreeSet::new()),
         focus: None,
         filter_large_len: 300,
